@@ -142,7 +142,9 @@ type parsed struct {
 	Closes   bool
 	// Huge: the frame declares >= 512 MiB (payload length or bitfield bits/8).
 	Huge bool
-	Msg  *p2p.Message
+	// Declared: the size in bytes the frame asks the receiver to make room for.
+	Declared int64
+	Msg      *p2p.Message
 }
 
 func bitsetHeader(b []byte) (length uint64, words int, ok bool) {
@@ -183,7 +185,7 @@ func classifyFrame(st stage, stream []byte, geoms []*geom, target *geom) parsed 
 	}
 	l := binary.BigEndian.Uint32(stream)
 	if l > maxMessageSize {
-		return parsed{Class: "frame-oversized-length-prefix", Hostile: true, Consumed: 4, Closes: true, Huge: l >= 1<<29}
+		return parsed{Class: "frame-oversized-length-prefix", Hostile: true, Consumed: 4, Closes: true, Huge: l >= 1<<29, Declared: int64(l)}
 	}
 	if int(l) > len(stream)-4 {
 		return parsed{Class: "frame-truncated-body", Hostile: true, Consumed: len(stream), Stall: true}
@@ -202,8 +204,13 @@ func classifyFrame(st stage, stream []byte, geoms []*geom, target *geom) parsed 
 				hdrs = append(hdrs, rb)
 			}
 			for _, h := range hdrs {
-				if l, _, ok := bitsetHeader(h); ok && l >= 1<<32 && l < 1<<50 {
-					p.Huge = true
+				if l, _, ok := bitsetHeader(h); ok && l < 1<<50 {
+					if l >= 1<<32 {
+						p.Huge = true
+					}
+					if int64(l/8) > p.Declared {
+						p.Declared = int64(l / 8)
+					}
 				}
 			}
 		}
@@ -285,6 +292,7 @@ func classifyFrame(st stage, stream []byte, geoms []*geom, target *geom) parsed 
 		avail := len(stream) - p.Consumed
 		oversized := int64(pp.Length) > g.PieceLength
 		p.Huge = pp.Length >= 1<<29
+		p.Declared = int64(pp.Length)
 		if int(pp.Length) > avail {
 			p.Stall = true
 			p.Consumed = len(stream)
